@@ -52,7 +52,7 @@ SLICED = [
         tail=[
             "data = data_rvs(nnz)",
             "ar = COO(ind[None, :], data, shape=elements, fill_value=fill_value).reshape(shape)",
-            "if idx_dtype:\n    if can_store(idx_dtype, max(shape)):\n        ar.coords = ar.coords.astype(idx_dtype)\n"
+            "if idx_dtype:\n    if can_store(idx_dtype, max(shape, default=0)):\n        ar.coords = ar.coords.astype(idx_dtype)\n"
             "    else:\n        raise ValueError(f'cannot cast array with shape {shape} to dtype {idx_dtype}.')",
             "return ar.asformat(format, **kwargs)",
         ],
